@@ -252,7 +252,7 @@ func runVdrProperty(c *Ctx, prop string) {
 		specs = append(specs, sp)
 	}
 	// a sub-pipeline directory is relocated to another volume while mrp is down
-	nReloc := 6
+	nReloc := 8
 	if c.Thorough {
 		nReloc = 60
 	}
@@ -267,6 +267,7 @@ func runVdrProperty(c *Ctx, prop string) {
 		}
 		sp := mk(fmt.Sprint("reloc", i), src, mode, c.Seed*104729+int64(i))
 		sp.RelocateSub = true
+		sp.RelocLevel = []string{"", "fork", "job", "files"}[(i+int(c.Seed))%4]
 		sp.CrashAt = []int{6 + c.Rng.Intn(20)}
 		sp.CrashSurvive = 0.3
 		specs = append(specs, sp)
@@ -275,6 +276,15 @@ func runVdrProperty(c *Ctx, prop string) {
 		mode := modes[c.Rng.Intn(3)]
 		src, _ := GenProgram(c.Rng, GenOpts{Files: true, Retain: true})
 		specs = append(specs, mk(fmt.Sprint("orch", i), src, mode, c.Seed*7919+int64(i)))
+	}
+	if only := os.Getenv("VDR_ONLY"); only != "" { // debugging aid: run the specs whose name contains the string
+		var keep []*VdrSpec
+		for _, sp := range specs {
+			if strings.Contains(sp.Name, only) {
+				keep = append(keep, sp)
+			}
+		}
+		specs = keep
 	}
 	results := RunVdrSpecs(specs, 14)
 	phase(fmt.Sprintf("tierA(%d runs)", len(specs)))
@@ -390,7 +400,7 @@ func runVdrProperty(c *Ctx, prop string) {
 		replies := c.Drv.AskBatch(reqs)
 		// the decidable hypotheses of the theorems (CfgOK, PathKinds, Sep, LinksTop) as the driver
 		// evaluated them on every replayed state
-		hypNames := []string{"CfgOK", "PathKinds", "Sep", "LinksTop"}
+		hypNames := []string{"CfgOK", "PathKinds", "Sep", "LinksTop", "CleanD"}
 		hypBad := map[string]bool{}
 		for i, rep := range replies {
 			j := strings.LastIndex(rep, " hyp=")
